@@ -15,6 +15,7 @@ import (
 	"github.com/nspcc-dev/neo-go/pkg/smartcontract/callflag"
 	"github.com/nspcc-dev/neo-go/pkg/util"
 	"github.com/nspcc-dev/neo-go/pkg/vm/emit"
+	"github.com/nspcc-dev/neo-go/pkg/vm/opcode"
 	"github.com/nspcc-dev/neo-go/pkg/wallet"
 	"pgregory.net/rapid"
 )
@@ -417,6 +418,12 @@ func (p *producer) buildTx(o Op, extraAttrs []transaction.Attribute) (tx *transa
 		script = callScript(tok, "transfer", a.ScriptHash(), p.khash[ki], amount, data)
 		desc = fmt.Sprintf("pay K%d %d data=%v", ki, amount, data != nil)
 	case OpNotary:
+		if o.X%2 == 1 {
+			if ntx, nd := p.notaryAssistedTx(o); ntx != nil {
+				return ntx, nd
+			}
+			o.X = 0 // not possible yet (no notary node designated / no deposit): make a deposit instead
+		}
 		switch o.X % 3 {
 		case 0:
 			till := int64(bc.BlockHeight()) + 3 + int64(o.Y)
@@ -498,4 +505,50 @@ func extraValidatorKeys() []*keys.PrivateKey {
 		r = append(r, pk)
 	}
 	return r
+}
+
+// notaryAssistedTx builds a transaction sponsored by account A's notary deposit: sender = Notary contract
+// (scope None, witness = signature of a designated P2PNotary node), second signer = the depositor.
+func (p *producer) notaryAssistedTx(o Op) (*transaction.Transaction, string) {
+	bc := p.n.BC
+	if bc.GetContractState(nativehashes.Notary) == nil {
+		return nil, ""
+	}
+	nodes, _, err := bc.GetDesignatedByRole(noderoles.P2PNotary)
+	if err != nil || len(nodes) == 0 {
+		return nil, ""
+	}
+	var nodeKey *keys.PrivateKey
+	for _, nk := range nodes {
+		if pk, ok := p.kr.byPub[nk.StringCompressed()]; ok {
+			nodeKey = pk
+			break
+		}
+	}
+	if nodeKey == nil {
+		return nil, ""
+	}
+	a := p.kr.acct(o.A)
+	dep := bc.GetUtilityTokenBalance(nativehashes.Notary, a.ScriptHash())
+	if dep.Sign() <= 0 || bc.GetNotaryDepositExpiration(a.ScriptHash()) <= bc.BlockHeight()+1 {
+		return nil, ""
+	}
+	tx := transaction.New(callScript(nativehashes.GasToken, "transfer", a.ScriptHash(), p.kr.acctHash(o.B), int64(1+o.N), nil), 0)
+	p.nonce++
+	tx.Nonce = p.nonce
+	tx.ValidUntilBlock = bc.BlockHeight() + 1 + uint32(o.Y%3)
+	tx.Signers = []transaction.Signer{{Account: nativehashes.Notary, Scopes: transaction.None}, {Account: a.ScriptHash(), Scopes: transaction.Global}}
+	tx.Attributes = []transaction.Attribute{{Type: transaction.NotaryAssistedT, Value: &transaction.NotaryAssisted{NKeys: 1}}}
+	tx.SystemFee = 3_000_000
+	tx.Scripts = []transaction.Witness{{InvocationScript: make([]byte, 66), VerificationScript: []byte{}}, {InvocationScript: make([]byte, 66), VerificationScript: a.Script()}}
+	tx.NetworkFee = int64(nio.GetVarSize(tx))*bc.FeePerByte() + bc.CalculateAttributesFee(tx) + 8_000_000
+	if dep.Int64() < tx.SystemFee+tx.NetworkFee {
+		return nil, ""
+	}
+	tx.Scripts = nil
+	sig := nodeKey.SignHashable(uint32(bc.GetConfig().Magic), tx)
+	w0 := transaction.Witness{InvocationScript: append([]byte{byte(opcode.PUSHDATA1), keys.SignatureLen}, sig...), VerificationScript: []byte{}}
+	w1 := transaction.Witness{InvocationScript: a.SignHashable(uint32(bc.GetConfig().Magic), tx), VerificationScript: a.Script()}
+	tx.Scripts = []transaction.Witness{w0, w1}
+	return tx, fmt.Sprintf("notary-assisted tx sponsored by a%d (deposit %s)", o.A, dep)
 }
